@@ -116,7 +116,7 @@ namespace ratio
     CORE_EXPORT bool_expr geq(arith_expr left, arith_expr right);
     CORE_EXPORT bool_expr gt(arith_expr left, arith_expr right);
 
-    CORE_EXPORT bool_expr eq(expr i0, expr i1) noexcept;
+    CORE_EXPORT bool_expr eq(expr i0, expr i1);
 
     CORE_EXPORT void assert_facts(const std::vector<smt::lit> &facts);
     CORE_EXPORT void assert_facts(const std::vector<bool_expr> &facts);
